@@ -1,0 +1,106 @@
+//go:build verif
+
+// Contracts for package activations, read by /verif/qv (comment-only file).
+
+package activations
+
+//@ define libT(x) := imp(x != nil, tinv(x) && preexisting(x))
+//@ define oneInput(xs) := len(xs) == 1 && xs[0] != nil
+
+//@ func NewRelu
+//@   public
+//@   returns fresh
+//@   ensures c != nil
+//@ func NewSigmoid
+//@   public
+//@   returns fresh
+//@   ensures c != nil
+//@ func NewTanh
+//@   public
+//@   returns fresh
+//@   ensures c != nil
+
+//@ func toValidLeakyReluConfig
+//@   returns fresh
+//@   ensures[C14] conf != nil && conf.M == ite(iconf == nil, 0.01, iconf.M)
+//@ func NewLeakyRelu
+//@   public
+//@   returns fresh
+//@   ensures[C14] c != nil && c.m == ite(conf == nil, 0.01, conf.M)
+
+//@ func toValidSoftmaxConfig
+//@   returns fresh
+//@   ensures[C14,C09] iff(err == nil, iconf == nil || iconf.Dim >= 0) && imp(err == nil, conf != nil && conf.Dim == ite(iconf == nil, 0, iconf.Dim))
+//@ func NewSoftmax
+//@   public
+//@   returns fresh
+//@   ensures[C14,C09] iff(err == nil, conf == nil || conf.Dim >= 0) && imp(err == nil, c != nil && c.dim == ite(conf == nil, 0, conf.Dim)) && imp(err != nil, c == nil)
+
+//@ func Relu.toValidInputs
+//@   ensures[C09] iff(err == nil, oneInput(xs)) && imp(err == nil, x == xs[0])
+//@ func LeakyRelu.toValidInputs
+//@   ensures[C09] iff(err == nil, oneInput(xs)) && imp(err == nil, x == xs[0])
+//@ func Sigmoid.toValidInputs
+//@   ensures[C09] iff(err == nil, oneInput(xs)) && imp(err == nil, x == xs[0])
+//@ func Tanh.toValidInputs
+//@   ensures[C09] iff(err == nil, oneInput(xs)) && imp(err == nil, x == xs[0])
+//@ func Softmax.toValidInputs
+//@   requires forall(k, 0, len(xs), libT(xs[k]))
+//@   ensures[C09] iff(err == nil, oneInput(xs) && rank(xs[0]) > c.dim) && imp(err == nil, x == xs[0])
+
+// C14: max(0, x)
+//@ func Relu.forward
+//@   requires tinv(x) && preexisting(x)
+//@   ensures[C14] err == nil && y != nil && sameShape(y, x) && forallJ(J, imp(inb(y, J), el(y, J) == fmaxr(0, el(x, J))))
+//@ func Relu.Forward
+//@   public
+//@   requires forall(k, 0, len(xs), libT(xs[k]))
+//@   ensures[C09,C14] iff(err == nil, oneInput(xs)) && imp(err != nil, y == nil)
+//@   ensures[C14] imp(err == nil, y != nil && sameShape(y, xs[0]) && forallJ(J, imp(inb(y, J), el(y, J) == fmaxr(0, el(xs[0], J)))))
+
+// C14: max(0, x) + m * min(0, x)
+//@ func LeakyRelu.forward
+//@   wants same
+//@   requires tinv(x) && preexisting(x)
+//@   ensures[C14] err == nil && y != nil && sameShape(y, x) && forallJ(J, imp(inb(y, J), el(y, J) == fmaxr(0, el(x, J)) + c.m * fminr(0, el(x, J))))
+//@ func LeakyRelu.Forward
+//@   public
+//@   requires forall(k, 0, len(xs), libT(xs[k]))
+//@   ensures[C09,C14] iff(err == nil, oneInput(xs)) && imp(err != nil, y == nil)
+//@   ensures[C14] imp(err == nil, y != nil && sameShape(y, xs[0]) && forallJ(J, imp(inb(y, J), el(y, J) == fmaxr(0, el(xs[0], J)) + c.m * fminr(0, el(xs[0], J)))))
+
+// C14: 1 / (1 + exp(-x))
+//@ func Sigmoid.forward
+//@   wants same
+//@   requires tinv(x) && preexisting(x)
+//@   ensures[C14] err == nil && y != nil && sameShape(y, x) && forallJ(J, imp(inb(y, J), el(y, J) == 1 / (1 + exp(0 - el(x, J)))))
+//@ func Sigmoid.Forward
+//@   public
+//@   requires forall(k, 0, len(xs), libT(xs[k]))
+//@   ensures[C09,C14] iff(err == nil, oneInput(xs)) && imp(err != nil, y == nil)
+//@   ensures[C14] imp(err == nil, y != nil && sameShape(y, xs[0]) && forallJ(J, imp(inb(y, J), el(y, J) == 1 / (1 + exp(0 - el(xs[0], J))))))
+
+//@ func Tanh.forward
+//@   requires tinv(x) && preexisting(x)
+//@   ensures[C14] err == nil && y != nil && sameShape(y, x) && forallJ(J, imp(inb(y, J), el(y, J) == tanh(el(x, J))))
+//@ func Tanh.Forward
+//@   public
+//@   requires forall(k, 0, len(xs), libT(xs[k]))
+//@   ensures[C09,C14] iff(err == nil, oneInput(xs)) && imp(err != nil, y == nil)
+//@   ensures[C14] imp(err == nil, y != nil && sameShape(y, xs[0]) && forallJ(J, imp(inb(y, J), el(y, J) == tanh(el(xs[0], J)))))
+
+// C14: along the configured dimension d, exp(x) divided by the sum of exp(x) over the fibre through the position
+//@ func Softmax.forward
+//@   requires tinv(x) && preexisting(x) && 0 <= c.dim && c.dim < rank(x)
+//@   uses projInb, delInbUnsq, unsqRed
+//@   witness e = x
+//@   ensures[C14] err == nil && y != nil && sameShape(y, old(x))
+//@   ensures[C14] existsT(e, sameShape(e, old(x)) && forallJ(J, imp(inb(e, J), el(e, J) == exp(el(old(x), J))))
+//@                && forallJ(J, imp(inb(y, J), el(y, J) == el(e, J) / fsum(e, c.dim, del(J, c.dim)))))
+//@ func Softmax.Forward
+//@   public
+//@   requires c.dim >= 0 && forall(k, 0, len(xs), libT(xs[k]))
+//@   ensures[C09,C14] iff(err == nil, oneInput(xs) && rank(xs[0]) > c.dim) && imp(err != nil, y == nil)
+//@   ensures[C14] imp(err == nil, y != nil && sameShape(y, xs[0]))
+//@   ensures[C14] imp(err == nil, existsT(e, sameShape(e, xs[0]) && forallJ(J, imp(inb(e, J), el(e, J) == exp(el(xs[0], J))))
+//@                && forallJ(J, imp(inb(y, J), el(y, J) == el(e, J) / fsum(e, c.dim, del(J, c.dim))))))
